@@ -17,6 +17,10 @@ OUT_KEYS = ('kind', 'strict', 'start', 'end', 'dirs', 'subs', 'map', 'iaddr', 'w
 def out_key(c, clause):
     """The key of a failed sna2ctl run: image class and clause, or one of the narrower input classes of the open findings."""
     key = 'out:%s:%s' % (c['image_kind'], clause)
+    if c['image_kind'] == 'top' and clause == 'sub-block-off-boundary' and 65536 in c['subs']:
+        return 'out:top:sub-block-off-boundary:rst-argument-beyond-top'        # -r: 'B 65536,1' for an RST at 65535
+    if 'cut_kept' in c:
+        return key + ':' + c['cut_kept'] + '+%d' % c['cut_missing']      # what is left of the last instruction + bytes cut off
     dirs = c['dirs']
     if clause == 'terminator' and c['end'] < 65536 and any(d == ['i', c['end']] for d in dirs) and dirs[-1][1] > c['end'] \
             and all(d[0] == 'U' for d in dirs[dirs.index(['i', c['end']]) + 1:]):
@@ -27,6 +31,10 @@ def out_key(c, clause):
         if not m:
             return key
         x, y = int(m.group(1)), int(m.group(2))
+        cb = [i for i, d in enumerate(dirs) if d[1] <= x]
+        if not c['map'] and cb and dirs[cb[-1]][0] == 'c' and cb[-1] > 0 and dirs[cb[-1] - 1][0] == 't':
+            # no code map: the overlapping instruction is in a code block that is what was left of a code block after the text in it
+            return 'out:overlap-warning:text-in-code-splits-instruction'
         if x not in c['map'] and y in c['map']:
             # an entry point that sna2ctl's heuristics created in UNEXECUTED bytes runs into an executed instruction
             return 'out:overlap-warning:unexecuted-entry-overlaps-executed'
@@ -64,13 +72,17 @@ def run(tier):
         groups = [list(range(g, min(g + per, 1792))) for g in range(0, 1792, per)]
         if tier != 'quick':
             groups += [list(range(g, 1792, 256)) for g in range(256)]
-        outs = pool.map(ctldrv.out_cases, [(sd * 59 + k, nout, wd, groups[k::16], [ctldrv.PROBE_UNEXECUTED_ENTRY, ctldrv.PROBE_U_BEYOND_END, ctldrv.PROBE_RST_ARG_WALK] if k == 0 else [])
+        outs = pool.map(ctldrv.out_cases, [(sd * 59 + k, nout, wd, groups[k::16], [ctldrv.PROBE_UNEXECUTED_ENTRY, ctldrv.PROBE_U_BEYOND_END, ctldrv.PROBE_RST_ARG_WALK,
+                                                                      ctldrv.PROBE_TEXT_SPLITS_INSTRUCTION] if k == 0 else [])
                                            for k in range(16)])
         # programs whose RST routines take inline arguments with opcode-like values (sna2ctl -r, with and without -m)
         nrst = 60 if tier == 'quick' else 900
         rsts = pool.map(ctldrv.rst_cases, [(sd * 61 + k, nrst, wd) for k in range(16)])
+        # images whose last instruction is cut by the top of memory / by END: every pattern x every cut position (a sweep, no chance)
+        specs = ctldrv.cut_specs(sd if tier == 'quick' else None)
+        cuts = pool.map(ctldrv.cut_cases, [(specs[k::16], wd, k) for k in range(16)])
     ft = [c for p in fts for c in p]
-    out = [c for p in outs for c in p] + [c for p in rsts for c in p]
+    out = [c for p in outs for c in p] + [c for p in rsts for c in p] + [c for p in cuts for c in p]
     log('C14: %d find-terminal calls, %d sna2ctl runs' % (len(ft), len(out)))
     cases = [{k: c[k] for k in FT_KEYS} for c in ft] + [{k: c[k] for k in OUT_KEYS} for c in out]
     full = ft + out
@@ -98,10 +110,21 @@ def run(tier):
               'rst_runs_r_and_m_word_argument', 'rst_runs_m_without_r'):
         if not rep.extra[k]:
             raise MachineryError('vacuous C14 run: %s = 0' % k)
+    # instructions cut by the end of the range: placements (what is left of the instruction, top of memory or explicit END)
+    for kind, name in (('top', 'cut_runs_top_of_memory'), ('cut', 'cut_runs_explicit_end')):
+        cc = [c for c in out if c['image_kind'] == kind and c.get('cut_missing')]
+        rep.extra[name] = len(cc)
+        rep.extra[name + '_distinct_placements'] = len(set((c['cut_kept'], c['cut_missing']) for c in cc))
+        rep.extra[name + '_with_map'] = sum(1 for c in cc if c['map'])
+        if not cc or rep.extra[name + '_distinct_placements'] < 60 or not rep.extra[name + '_with_map']:
+            raise MachineryError('vacuous C14 run: %s = %d (%d placements)' % (name, len(cc), rep.extra[name + '_distinct_placements']))
+    rep.extra['cut_runs_top_of_memory_without_e'] = sum(1 for c in out if c['image_kind'] == 'top' and c.get('cut_missing') and '-e' not in c['args'])
+    if not rep.extra['cut_runs_top_of_memory_without_e']:
+        raise MachineryError('vacuous C14 run: no image cut by the top of memory without -e')
     for c in ft:
         rep.count(('ft', tuple(c['len']), tuple(c['isend']), str(c['pre']), c['from'], c['limit'], c['ctl']))
     for c in out:
-        rep.count(('out', c['image_kind'], tuple(c['args'][:6]), len(c['map']), tuple(c['image']) if c['image_kind'] == 'rst' else 0))
+        rep.count(('out', c['image_kind'], tuple(c['args'][:6]), len(c['map']), tuple(c['image']) if c['image_kind'] in ('rst', 'top', 'cut') else 0))
     rep.sample({k: ft[0][k] for k in FT_KEYS})
     rep.sample({k: out[0][k] for k in ('start', 'end', 'args', 'dirs', 'map')})
     for i, clause in fails:
@@ -122,6 +145,9 @@ def run(tier):
                 'opcode slot (1792) once in straight-line images with -C; rst: programs whose RST routines step over 1/2 inline argument '
                 'bytes (values mostly opcodes of jumps/returns, followed by 2-4 byte instructions), traced with those routines, x -m in 5 '
                 'formats / none x -r / none x RSTHandlerConfig (skoolkit.ini: as the program does, default 8:B, something else); '
+                'top/cut: 49 instruction patterns (every prefix class, undefined slots) x every cut position x 4 preambles x {image ends at '
+                '65535 with / without -e, explicit -e below the top with the rest of the instruction in memory} x code map (none, straight '
+                'line with / without the cut instruction) x -r x -C (quick: 3 of the 4 preambles and one -r/-C combination per placement, rotating with the seed); '
                 'distinct_nontrivial = distinct inputs')
     rmworkdir('c14')
     return rep.finish()
